@@ -53,6 +53,18 @@ P = {
  "C19": ("lock-step history monitor against a Vec<Vec<i64>> grid model through every write and read path (Mesh1D/Mesh2D at f64 and Rat), exact rational reference for interpolation and quadrature on dyadic grids with integer data, file round trips re-read and compared over Rat",
          "All 44 1-D and 484 2-D shapes (2..12 nodes, 1..4 vars) enumerated + random non-uniform dyadic grids: every access path returns what was stored after every write; interpolation exact at nodes and within 512u of the Rat interpolant elsewhere (>=1e-6 from nodes); trapezium/square_trapezium equal the exact cell sums (bit-exact under certificate) and the analytic integral of (bi)linear data; output/read reproduces nodes and variables within 1/2*10^-p.",
          "Files are written under /verif/.work and deleted; behaviour inside the 1e-7 snapping window and outside the grid is not judged.", "5/C19"),
+ "C11": ("differential runtime monitor: real generic Polynomial<T> at Rat/CRat/f64/Complex vs an independently coded coefficient-list model (gather convolution, falling-factorial derivative, power-sum evaluation); ring/calculus laws through composed library calls",
+         "All ordered pairs of coefficient lists of length 0..4 over {-1,0,1} (and length 0..3 over {0,+-1,+-i}) exhaustively plus random pairs over all 100 length pairs 0..9: +,-,neg,*,scalar* in owned/borrowed/commuted forms, eval, derivative(_n,_at), degree, size, is_zero, trim equal the model exactly; linearity, product rule, distributivity, associativity, cancellation hold; the empty polynomial acts as zero.",
+         "Float checks only under a generator-side certificate that every intermediate is exact in binary64.", "5/C11"),
+ "C15": ("lock-step history monitor of Vector<T> (public field vec) against a plain Vec model for all 11^4 four-step edit sequences and random histories over six element types; exact-rational oracles for arithmetic and every (start,end) range reduction; double-double references and norm laws for the f64/Complex norms; element-wise oracle for linspace/powspace",
+         "After every edit step vec/size/return value equal the model; 16 arithmetic impls, dot, abs, conj, real, norm_1 exact; sum_slice/product_slice for every range of every length 0..24; norms within 128(n+8)u of double-double and obeying non-negativity, homogeneity, triangle, inf<=2<=1 (also for |x|~2^+-600); linspace/powspace start at a, end at b within rounding, monotone.",
+         "Numerical tolerances apply for magnitudes in [2^-118,2^118]; outside only finiteness and the ordering of the norms are judged.", "5/C15"),
+ "C16": ("runtime monitoring of the one concurrent routine: CPU-affinity sweep setting the worker count 1..16 in-process, hook H3 event log (chunk partition conservation, completion-order tickets), injected per-worker delays and background load, exact integer oracle; sanitizers: Miri data-race detector with seeded scheduler over -Zmiri-num-cpus x -Zmiri-many-seeds (hook-free) plus a hooked Miri run counting distinct completion orders; ThreadSanitizer build swept over affinities (thorough)",
+         "For every worker count 1..16 and every length 0..200: dot_f64 bit-equal to dot and to the exact i128 product sum on exact data, within 2*len*u*sum|ab| otherwise, bit-identical on repetition under injected delays/load; chunks tile [0,len) exactly once; zero Miri/TSan reports. Held on the schedules actually produced (counted in the evidence).",
+         "Worker count set via sched_setaffinity (what num_cpus::get reads); Miri cannot cross FFI but dot_f64 has none.", "5/C16"),
+ "C20": ("must-panic table + shadow-state monitor: 98 entry points called with every mismatched size pair / out-of-range index, receivers of &mut entry points snapshotted (all entries + private storage length) and compared after the caught panic; bitwise non-mutation and owned-vs-borrowed identity on hostile bit patterns (-0.0, subnormals, NaN payloads); clone-independence histories against separate models",
+         "Every mismatched call panics and leaves the receiver untouched; by-reference operators and &self methods leave operands bit-for-bit unchanged and agree bitwise with their consuming counterparts; mutations of a value never show through its clone.",
+         "Any panic counts as rejection; raw (i,j) index operators of Matrix/Banded/Mesh2D are outside the claim as the property says.", "5/C20"),
 }
 ORDER = ["C%02d" % i for i in range(1, 21)]
 NOT_BUILT_REASON = "monitor for this property is designed (DESIGN.md section 5) but not yet built in this revision; not claimed"
